@@ -12,6 +12,11 @@
              the sorted new index, and for user divisions the rows of every
              output partition
    dedup     rows x subset x keep: the surviving rows; unique / nunique of k
+   pre       order-free operations (drop_duplicates, unique / nunique, shuffle) and
+             sort_values on PRE-PARTITIONED sources: a salted sample of frames x
+             operations x pre-stages (shuffle / earlier hash join / groupby with
+             split_out / set_index on columns K' in every relation to the columns
+             of the operation).  Same expectation as for a fresh source.
    layouts   all row partitionings with <= MaxParts parts (empty ones included)
 
    rows = every key sequence over Keys \cup {NA} for k (all of them up to Full
@@ -21,7 +26,8 @@
    the cases with them.                                                       *)
 EXTENDS Shuffle, Json
 
-CONSTANTS Fams, Keys, MaxN, Full, Mod, Salt, MaxParts, MaxBranchIn
+CONSTANTS Fams, Keys, MaxN, Full, Mod, Salt, MaxParts, MaxBranchIn,
+          PreMod       \* pre: 1 / PreMod of the (frame, operation, pre-stage) triples
 
 VARIABLES sc, sd, se, sout
 svars == <<sc, sd, se, sout>>
@@ -48,6 +54,19 @@ RowSets(n, sl) ==
 Seeds == { [fam |-> f, n |-> n, sl |-> sl] : f \in Fams \ {"layouts"}, n \in 0..MaxN, sl \in 0..3 }
          \cup (IF "layouts" \in Fams THEN { [fam |-> "layouts", n |-> n, sl |-> 0] : n \in 0..MaxN } ELSE {})
 
+PreOns == << <<"k">>, <<"k2">>, <<"k", "k2">>, <<"k", "rid">>, <<"k", "k2", "rid">>, <<"rid">> >>
+PreMenu ==
+  LET of(how) == [q \in DOMAIN PreOns |-> [how |-> how, on |-> PreOns[q]]]
+  IN of("shuffle") \o of("merge") \o of("groupby") \o SelectSeq(of("setindex"), LAMBDA pr : Len(pr.on) = 1)
+\* the operations run on pre-partitioned sources, with their expectation
+PreOps(rows) ==
+  UNION { { <<[fam |-> "dedup", rows |-> rows, op |-> "drop_duplicates", subset |-> sb, keep |-> kp], [rids |-> Rids(DropDuplicates(rows, sb, kp))]>>
+            : sb \in {"k", "kk", "all"} } : kp \in {"first", "last"} }
+  \cup { <<[fam |-> "dedup", rows |-> rows, op |-> "unique", subset |-> "k", keep |-> "first"],
+           [values |-> UniqueValues(rows), count |-> <<NUnique(rows, TRUE), NUnique(rows, FALSE)>>]>> }
+  \cup { <<[fam |-> "shuffle", rows |-> rows, on |-> on], [classes |-> KeyClasses(rows, on)]>> : on \in {"k", "kk"} }
+  \cup { <<[fam |-> "sort", rows |-> rows, by |-> "k", asc |-> <<TRUE>>, naf |-> FALSE], [keys |-> SortedKeySeq(rows, "k", <<TRUE>>, FALSE)]>> }
+
 Init == sc \in Seeds /\ sd = FALSE /\ se = <<>> /\ sout = ""
 Emit(c, e) == sc' = c /\ se' = e /\ sout' = ToJson([c |-> c, e |-> e])
 
@@ -61,32 +80,39 @@ Next ==
   /\ ~sd
   /\ sd' = TRUE
   /\ CASE sc.fam = "layouts" -> Emit(sc, SetToSeq(Layouts(sc.n, MaxParts)))
+       [] sc.fam = "pre" ->
+            \E rows \in RowSets(sc.n, sc.sl), a \in DOMAIN PreMenu :
+               /\ Len(rows) >= 2 /\ PreOK(rows, PreMenu[a])
+               /\ \E oe \in PreOps(rows) :
+                     /\ ((HashSeq([i \in DOMAIN rows |-> rows[i].k]) + HashSeq(Idxs(rows)) * 3 + a * 7 + Len(oe[1].fam) * 5
+                           + (IF "subset" \in DOMAIN oe[1] THEN Len(oe[1].subset) * 11 + Len(oe[1].keep) ELSE 0) + Salt) % PreMod) = 0
+                     /\ Emit(oe[1] @@ [pre |-> PreMenu[a]], oe[2])
        [] sc.fam = "shuffle" ->
             \E rows \in RowSets(sc.n, sc.sl), on \in {"k", "kk", "idx"} :
-               LET c == [fam |-> "shuffle", rows |-> rows, on |-> on] IN Emit(c, [classes |-> KeyClasses(rows, on)])
+               LET c == [fam |-> "shuffle", rows |-> rows, on |-> on, pre |-> NoPre] IN Emit(c, [classes |-> KeyClasses(rows, on)])
        [] sc.fam = "sort" ->
             \E rows \in RowSets(sc.n, sc.sl), by \in {"k", "kk"}, naf \in BOOLEAN :
                \E asc \in AscSets(by) :
-                  LET c == [fam |-> "sort", rows |-> rows, by |-> by, asc |-> asc, naf |-> naf]
+                  LET c == [fam |-> "sort", rows |-> rows, by |-> by, asc |-> asc, naf |-> naf, pre |-> NoPre]
                   IN Emit(c, [keys |-> SortedKeySeq(rows, by, asc, naf)])
        [] sc.fam = "setindex" ->
             \E rows \in RowSets(sc.n, sc.sl), drop \in BOOLEAN :
-               \/ LET c == [fam |-> "setindex", rows |-> rows, drop |-> drop, how |-> "auto", udivs |-> <<>>]
+               \/ LET c == [fam |-> "setindex", rows |-> rows, drop |-> drop, how |-> "auto", udivs |-> <<>>, pre |-> NoPre]
                   IN Emit(c, [idxs |-> [p \in DOMAIN rows |-> SortedKeySeq(rows, "k", <<TRUE>>, FALSE)[p][1]], parts |-> <<>>])
                \/ /\ SortedK(rows) /\ rows # <<>>
-                  /\ LET c == [fam |-> "setindex", rows |-> rows, drop |-> drop, how |-> "sorted", udivs |-> <<>>]
+                  /\ LET c == [fam |-> "setindex", rows |-> rows, drop |-> drop, how |-> "sorted", udivs |-> <<>>, pre |-> NoPre]
                      IN Emit(c, [idxs |-> [i \in DOMAIN rows |-> rows[i].k], parts |-> <<>>])
                \/ \E d \in UserDivs :
                      /\ NoNA(rows) /\ rows # <<>> /\ CoversLabels(d, rows)
-                     /\ LET c == [fam |-> "setindex", rows |-> rows, drop |-> drop, how |-> "user", udivs |-> d]
+                     /\ LET c == [fam |-> "setindex", rows |-> rows, drop |-> drop, how |-> "user", udivs |-> d, pre |-> NoPre]
                         IN Emit(c, [idxs |-> <<>>,
                                     parts |-> [p \in 1..(Len(d) - 1) |-> { rows[i].rid : i \in { i \in DOMAIN rows : PartOfLabel(d, rows[i].k) = p } }]])
        [] sc.fam = "dedup" ->
             \E rows \in RowSets(sc.n, sc.sl) :
                \/ \E subset \in {"k", "kk", "all"}, keep \in {"first", "last"} :
-                     LET c == [fam |-> "dedup", rows |-> rows, op |-> "drop_duplicates", subset |-> subset, keep |-> keep]
+                     LET c == [fam |-> "dedup", rows |-> rows, op |-> "drop_duplicates", subset |-> subset, keep |-> keep, pre |-> NoPre]
                      IN Emit(c, [rids |-> Rids(DropDuplicates(rows, subset, keep))])
-               \/ LET c == [fam |-> "dedup", rows |-> rows, op |-> "unique", subset |-> "k", keep |-> "first"]
+               \/ LET c == [fam |-> "dedup", rows |-> rows, op |-> "unique", subset |-> "k", keep |-> "first", pre |-> NoPre]
                   IN Emit(c, [values |-> UniqueValues(rows), count |-> <<NUnique(rows, TRUE), NUnique(rows, FALSE)>>])
 
 Spec == Init /\ [][Next]_svars
@@ -148,6 +174,21 @@ UniqueSane ==
   (IsCase("dedup") /\ sc.op = "unique") =>
     /\ se.count[2] = Cardinality(se.values)
     /\ se.count[1] = se.count[2] - (IF NA \in se.values THEN 1 ELSE 0)
+
+\* a pre-partitioned case respects the precondition of its stage and expects exactly what the fresh source expects; and the
+\* co-location a pre-stage on K' gives implies the co-location an operation on K needs exactly when K' is a subset of K
+\* (the test dask may use to skip a shuffle): checked on the reference hash shuffle for every assignment of K' values
+PreSane ==
+  (sd /\ sc.fam # "layouts" /\ sc.pre # NoPre) =>
+     /\ PreOK(sc.rows, sc.pre)
+     /\ sc.fam = "shuffle" => se.classes = KeyClasses(sc.rows, sc.on)
+     /\ (sc.fam = "shuffle" /\ sc.pre.how = "shuffle" /\ Len(sc.rows) <= 4) =>
+           LET kp(r) == PreKey(r, sc.pre.on)
+               vals == { kp(sc.rows[i]) : i \in DOMAIN sc.rows }
+               cols == IF sc.on = "k" THEN {"k"} ELSE {"k", "k2"}
+           IN (SeqSet(sc.pre.on) \subseteq cols) =>
+                 \A hf \in [vals -> 1..2] :
+                    CoLocated([p \in 1..2 |-> SelectSeq(sc.rows, LAMBDA r : hf[kp(r)] = p)], sc.rows, sc.on)
 
 \* the staged task shuffle delivers every row to its target partition (max_branch = 2, 3; up to MaxBranchIn inputs)
 Stages(nin, mb) == CHOOSE s \in 1..8 : Pow(mb, s) >= nin /\ \A t \in 1..(s - 1) : Pow(mb, t) < nin
